@@ -67,7 +67,10 @@ def run(res):
     trees = RC.valid_trees(res.seed, 150, "c14")
     ok = C.dvh().run(["parseclass rpu " + (RC.SC4 + raw).hex() for t, raw, m in trees])
     pool = [raw.rstrip(b"\x00") for (t, raw, m), o in zip(trees, ok) if o == "ok"] + [v for k, v in RC.asset_cases() if k not in ("st2094_10_level3.bin",)]
-    pool = [p for p in pool if C.dvh().run(["parseclass rpu " + (RC.SC4 + p).hex()])[0] == "ok"][:120] if res.tier == "quick" else pool
+    okp = C.run_sharded(C.dvh, ["parseclass rpu " + (RC.SC4 + p).hex() for p in pool])
+    pool = [p for p, o in zip(pool, okp) if o == "ok"]
+    if res.tier == "quick":
+        pool = pool[:120]
     sizes = [10000, 12500, 20000] if res.tier == "quick" else [10000, 12500, 20000, 25000, 50000]
     files = []  # (label, cs, bytes, expected list of crcs or None for error)
     for cs in sizes:
